@@ -390,6 +390,36 @@ func ws(depth int) []val[W] {
 	return vs
 }
 
+// trees: values of the self-referential union Tr, every level built through the emitted
+// constructors and, for the same canonical value, through the case structs directly
+func trees(depth int) []val[Tr] {
+	level := []val[Tr]{{"TNil", "New_Tr_TNil", New_Tr_TNil}, {"TNil", "struct", Tr_TNil{}}}
+	for _, a := range pick(ints(), 0, 1, 3) {
+		level = append(level, val[Tr]{"TLeaf(" + a.canon + ")", "New_Tr_TLeaf/" + a.path, New_Tr_TLeaf(a.v)})
+	}
+	level = append(level, val[Tr]{"TMany[]", "New_Tr_TMany/nil", New_Tr_TMany(nil)}, val[Tr]{"TMany[]", "New_Tr_TMany/New", New_Tr_TMany(slice.New[Tr]())},
+		val[Tr]{"TMany[]", "New_Tr_TMany/Filter", New_Tr_TMany(slice.Filter(func(Tr) bool { return false }, []Tr{New_Tr_TNil}))})
+	all := append([]val[Tr]{}, level...)
+	for d := 1; d < depth+1; d++ {
+		var next []val[Tr]
+		src := sample(level, 7)
+		for i, a := range src {
+			b := src[(i+3)%len(src)]
+			next = append(next, val[Tr]{"TNode(" + a.canon + "," + b.canon + ")", "New_Tr_TNode/" + a.path + "," + b.path, New_Tr_TNode(frt.NewTuple2(a.v, b.v))})
+			next = append(next, val[Tr]{"TNode(" + a.canon + "," + b.canon + ")", "struct/" + a.path + "," + b.path, Tr_TNode{frt.NewTuple2(a.v, b.v)}})
+			next = append(next, val[Tr]{"TMany[" + a.canon + "]", "New_Tr_TMany/lit/" + a.path, New_Tr_TMany([]Tr{a.v})})
+			next = append(next, val[Tr]{"TMany[" + a.canon + "]", "New_Tr_TMany/PushLast/" + a.path, New_Tr_TMany(slice.PushLast(a.v, slice.New[Tr]()))})
+			next = append(next, val[Tr]{"TMany[" + a.canon + " " + b.canon + "]", "New_Tr_TMany/lit/" + a.path + "," + b.path, New_Tr_TMany([]Tr{a.v, b.v})})
+			for _, r := range pick(rlows(), 0, 5) {
+				next = append(next, val[Tr]{"TRec(" + r.canon + "," + a.canon + ")", "New_Tr_TRec/" + r.path + "/" + a.path, New_Tr_TRec(frt.NewTuple2(r.v, a.v))})
+			}
+		}
+		all = append(all, next...)
+		level = next
+	}
+	return all
+}
+
 func sliceOfSlices(depth int) []val[[][]int] {
 	in := sample(intSlices(depth), 16)
 	var vs []val[[][]int]
@@ -430,6 +460,7 @@ func Run() {
 	checkType("record RU (union-typed fields, upper and lower case)", rus(depth), frt.OpEqual[RU], frt.OpNotEqual[RU], tri)
 	checkType("tuple int*U", tupUs(depth), frt.OpEqual[frt.Tuple2[int, U]], frt.OpNotEqual[frt.Tuple2[int, U]], tri)
 	checkType("union W (payloads containing unions)", ws(depth), frt.OpEqual[W], frt.OpNotEqual[W], tri)
+	checkType("self-referential union Tr", trees(depth), frt.OpEqual[Tr], frt.OpNotEqual[Tr], tri)
 	checkType("generic record GBox<int>", boxes(), frt.OpEqual[GBox[int]], frt.OpNotEqual[GBox[int]], tri)
 	checkType("generic record GBox<[]int>", sboxes(depth), frt.OpEqual[GBox[[]int]], frt.OpNotEqual[GBox[[]int]], tri)
 	checkType("generic union GOpt<RLow>", opts(), frt.OpEqual[GOpt[RLow]], frt.OpNotEqual[GOpt[RLow]], tri)
@@ -444,6 +475,7 @@ func Run() {
 	checkType("Folang = / <> on RU (emitted)", rus(depth), EqRU, NeRU, 0)
 	checkType("Folang = on W (emitted)", ws(depth), EqW, nil, 0)
 	checkType("Folang = on int*U (emitted)", tupUs(depth), EqTupU, nil, 0)
+	checkType("Folang = / <> on Tr (emitted)", trees(depth), EqTr, NeTr, 0)
 	emit(map[string]any{"t": "stat", "k": "pairs_per_type", "v": perType})
 	emit(map[string]any{"t": "stat", "k": "types", "v": len(perType)})
 	emit(map[string]any{"t": "stat", "k": "panics_per_type", "v": panics})
